@@ -64,9 +64,14 @@ def topoSort (p : Predicate) : Except PredError (List (List Nat)) :=
   | some l => .ok l
   | none => .error (.invalidNodeEdges 0)
 
-/-- one round of propagating deferral to children -/
+/-- drop repeated elements (the code's `HashSet::insert` guard) -/
+def dedup : List Nat → List Nat
+  | [] => []
+  | a :: as => if as.contains a then dedup as else a :: dedup as
+
+/-- one round of propagating deferral to children: every child not yet in the set, once -/
 def deferStep (p : Predicate) (d : List Nat) : List Nat :=
-  d ++ (d.flatMap fun u => edgesOf p u).filter fun c => !d.contains c
+  d ++ dedup ((d.flatMap fun u => edgesOf p u).filter fun c => !d.contains c)
 
 /-- `find_deferred` (after the fix): all descendants of the nodes selected by `isDef`
 (as a duplicate-free-up-to-membership list; only membership is ever used) -/
